@@ -666,4 +666,199 @@ theorem stageCtHashes_held_leaf (E : Env H) (cfg : Cfg) (pick : List Nat → Nat
   simp only
   rw [held_leaf_needs_nothing hc hsc hL hheld]
 
+/-! ### `SibClosed` (every held non-root node has its sibling held) is a stage invariant too -/
+
+omit [DecidableEq H] in
+/-- storing a root keeps a tree sibling-closed -/
+theorem seed_keeps_sibClosed {t : Tree H} (hsc : SibClosed t) (r : H) : SibClosed (seed t r) := by
+  intro i hi h1
+  unfold seed at *
+  rw [get_set_ne _ (Ne.symm hi)] at h1
+  rw [get_set_ne _ (Ne.symm (sibling_ne_zero hi))]
+  exact hsc i hi h1
+
+/-- `_satisfy_UEB` keeps the share hash tree sibling-closed and installs a sibling-closed crypttext hash tree -/
+theorem stageUEB_keeps_sibClosed (E : Env H) (cap : Cap H) (v : View H) (nd : Node H)
+    (hs : SibClosed nd.shareTree) (hc : SibClosed nd.ctTree) :
+    SibClosed (stageUEB E cap v nd).2.shareTree ∧ SibClosed (stageUEB E cap v nd).2.ctTree := by
+  unfold stageUEB
+  split
+  · exact ⟨hs, hc⟩
+  · split
+    · exact ⟨hs, hc⟩
+    · split
+      · exact ⟨hs, hc⟩
+      · split
+        · exact ⟨hs, hc⟩
+        · split
+          · exact ⟨hs, hc⟩
+          · exact ⟨seed_keeps_sibClosed hs _, seed_keeps_sibClosed (newTree_sibClosed _) _⟩
+
+/-- a `set_hashes` call whose indices are in range keeps the tree sibling-closed, whatever its outcome (accepted: the level
+    loop fills every parent; rejected: rolled back to the tree as it was) -/
+theorem set_keeps_sibClosed {E : Env H} {cfg : Cfg} (hstrict : StrictPresence E.ops cfg) {t : Tree H} (hcl : SibClosed t)
+    {pick : List Nat → Nat} {first : Nat} {hashes leaves : List (Nat × H)} {o : Outcome} {t' : Tree H}
+    (hrange : ∀ new, mergeLeaves first hashes leaves = some new → ∀ e ∈ new, e.1 < t.length)
+    (hs : setHashes E.ops cfg pick first t hashes leaves = (o, t')) : SibClosed t' := by
+  by_cases ho : o = .ok
+  · subst ho
+    obtain ⟨new, st, _, hres, e⟩ := setHashes_ok hs
+    rw [← e]
+    exact tryBody_sibClosed hstrict pick t new hcl hres
+  · have := setHashes_fail_same hstrict hrange hs ho
+    subst this
+    exact hcl
+
+/-- `_satisfy_block_hash_tree` keeps the share's block hash tree sibling-closed, whatever the share answered -/
+theorem stageBlockHashes_keeps_sibClosed {E : Env H} {cfg : Cfg} (hstrict : StrictPresence E.ops cfg)
+    (pick : List Nat → Nat) (shnum segnum : Nat) (v : View H) (nd : Node H) {T : Tree H} {u : UEB H} {sz : Sizes}
+    (hk : nd.known = some (u, sz)) (hok : TreeOK E.ops T (nd.blockTree shnum sz.numSegs))
+    (hcl : SibClosed (nd.blockTree shnum sz.numSegs)) :
+    SibClosed ((stageBlockHashes E cfg pick shnum segnum v nd).2.blockTree shnum sz.numSegs) := by
+  unfold stageBlockHashes
+  rw [hk]
+  simp only
+  cases hn : neededHashes? (nd.blockTree shnum sz.numSegs) (firstLeafNum sz.numSegs) segnum true with
+  | none => simp only; exact hcl
+  | some needed =>
+    cases needed with
+    | nil => simp only; exact hcl
+    | cons a rest =>
+      simp only
+      cases hc : collect (a :: rest) v.blockHashes with
+      | none => simp only; exact hcl
+      | some hs =>
+        simp only
+        have hrange : ∀ new, mergeLeaves (firstLeafNum sz.numSegs) hs [] = some new →
+            ∀ e ∈ new, e.1 < (nd.blockTree shnum sz.numSegs).length := by
+          intro new hm e he
+          have : new = hs := by simp [mergeLeaves] at hm; exact hm.symm
+          subst this
+          exact neededHashes?_lt (treeOK_odd hok) hn _ (collect_keys hc e he)
+        cases hsr : setHashes E.ops cfg pick (firstLeafNum sz.numSegs) (nd.blockTree shnum sz.numSegs) hs [] with
+        | mk o t' =>
+          have := set_keeps_sibClosed hstrict hcl hrange hsr
+          cases o <;> (simp only; rw [blockTree_set_same]; exact this)
+
+/-- `_satisfy_data_block` keeps the share's block hash tree sibling-closed, whatever block the share sent -/
+theorem stageData_keeps_sibClosed {E : Env H} {cfg : Cfg} (hstrict : StrictPresence E.ops cfg)
+    (pick : List Nat → Nat) (shnum segnum : Nat) (v : View H) (nd : Node H) {T : Tree H} {u : UEB H} {sz : Sizes}
+    (hk : nd.known = some (u, sz)) (hok : TreeOK E.ops T (nd.blockTree shnum sz.numSegs))
+    (hseg : segnum < sz.numSegs) (hlen : T.length = 2 * roundupPow2 sz.numSegs - 1)
+    (hcl : SibClosed (nd.blockTree shnum sz.numSegs)) :
+    SibClosed ((stageData E cfg pick shnum segnum v nd).2.blockTree shnum sz.numSegs) := by
+  unfold stageData
+  rw [hk]
+  simp only
+  generalize (if segnum + 1 = sz.numSegs then sz.tailBlockSize else sz.blockSize) = blocklen
+  split
+  · exact hcl
+  · have hrange : ∀ new, mergeLeaves (firstLeafNum sz.numSegs) [] [(segnum, E.tagged .block v.block)] = some new →
+        ∀ e ∈ new, e.1 < (nd.blockTree shnum sz.numSegs).length := by
+      intro new hm e he
+      simp [mergeLeaves] at hm
+      subst hm
+      simp at he
+      subst he
+      have := roundupPow2_ge sz.numSegs
+      have := roundupPow2_pos sz.numSegs
+      rw [hok.2.1, hlen]
+      show firstLeafNum sz.numSegs + segnum < _
+      unfold firstLeafNum
+      omega
+    cases hsr : setHashes E.ops cfg pick (firstLeafNum sz.numSegs) (nd.blockTree shnum sz.numSegs) []
+        [(segnum, E.tagged .block v.block)] with
+    | mk o t' =>
+      have := set_keeps_sibClosed hstrict hcl hrange hsr
+      cases o <;> (simp only; rw [blockTree_set_same]; exact this)
+
+/-- `_satisfy_ciphertext_hash_tree` keeps the node's crypttext hash tree sibling-closed, whatever the share answered -/
+theorem stageCtHashes_keeps_sibClosed {E : Env H} {cfg : Cfg} (hstrict : StrictPresence E.ops cfg)
+    (pick : List Nat → Nat) (segnum : Nat) (v : View H) (nd : Node H)
+    (hodd : nd.ctTree.length % 2 = 1) (hcl : SibClosed nd.ctTree) :
+    SibClosed (stageCtHashes E cfg pick segnum v nd).2.ctTree := by
+  unfold stageCtHashes
+  cases hk : nd.known with
+  | none => simp only; exact hcl
+  | some us =>
+    obtain ⟨u, sz⟩ := us
+    simp only
+    cases hn : neededHashes? nd.ctTree (firstLeafNum sz.numSegs) segnum true with
+    | none => simp only; exact hcl
+    | some needed =>
+      cases needed with
+      | nil => simp only; exact hcl
+      | cons a rest =>
+        simp only
+        cases hc : collect (a :: rest) v.ctHashes with
+        | none => simp only; exact hcl
+        | some hs =>
+          simp only
+          have hrange : ∀ new, mergeLeaves (firstLeafNum sz.numSegs) hs [] = some new →
+              ∀ e ∈ new, e.1 < nd.ctTree.length := by
+            intro new hm e he
+            have : new = hs := by simp [mergeLeaves] at hm; exact hm.symm
+            subst this
+            exact neededHashes?_lt hodd hn _ (collect_keys hc e he)
+          cases hsr : setHashes E.ops cfg pick (firstLeafNum sz.numSegs) nd.ctTree hs [] with
+          | mk o t' =>
+            have := set_keeps_sibClosed hstrict hcl hrange hsr
+            cases o <;> (simp only; exact this)
+
+/-- `_satisfy_share_hash_tree` keeps the node's share hash tree sibling-closed, whatever chain the share sent -/
+theorem stageShareTree_keeps_sibClosed {E : Env H} {cfg : Cfg} (hstrict : StrictPresence E.ops cfg)
+    (pick : List Nat → Nat) (cap : Cap H) (shnum : Nat) (v : View H) (nd : Node H) (hcl : SibClosed nd.shareTree) :
+    SibClosed (stageShareTree E cfg pick cap shnum v nd).2.shareTree := by
+  unfold stageShareTree
+  split
+  · exact hcl
+  · split
+    · exact hcl
+    · split
+      · exact hcl
+      · simp only
+        split
+        · exact hcl
+        · rename_i hany
+          have hrange : ∀ new, mergeLeaves (firstLeafNum cap.n) (dictOf v.shareHashes) [] = some new →
+              ∀ e ∈ new, e.1 < nd.shareTree.length := by
+            intro new hm e he
+            have : new = dictOf v.shareHashes := by simp [mergeLeaves] at hm; exact hm.symm
+            subst this
+            apply Nat.lt_of_not_le
+            intro hge
+            exact hany (List.any_eq_true.mpr ⟨e, he, by simpa using hge⟩)
+          cases hsr : setHashes E.ops cfg pick (firstLeafNum cap.n) nd.shareTree (dictOf v.shareHashes) [] with
+          | mk o t' =>
+            have := set_keeps_sibClosed hstrict hcl hrange hsr
+            cases o <;> (simp only; exact this)
+
+/-- `set_block_hash_root` keeps the share's block hash tree sibling-closed -/
+theorem stageBlockRoot_keeps_sibClosed {E : Env H} {cfg : Cfg} (hstrict : StrictPresence E.ops cfg)
+    (pick : List Nat → Nat) (cap : Cap H) (shnum : Nat) (nd : Node H) {u : UEB H} {sz : Sizes}
+    (hk : nd.known = some (u, sz)) (hcl : SibClosed (nd.blockTree shnum sz.numSegs)) :
+    SibClosed ((stageBlockRoot E cfg pick cap shnum nd).2.blockTree shnum sz.numSegs) := by
+  unfold stageBlockRoot
+  rw [hk]
+  simp only
+  split
+  · exact hcl
+  · split
+    · exact hcl
+    · split
+      · rw [blockTree_set_same]; exact seed_keeps_sibClosed hcl _
+      · rename_i r _ hroot
+        have hrange : ∀ new, mergeLeaves (firstLeafNum sz.numSegs) [(0, r)] [] = some new →
+            ∀ e ∈ new, e.1 < (nd.blockTree shnum sz.numSegs).length := by
+          intro new hm e he
+          simp [mergeLeaves] at hm
+          subst hm
+          simp at he
+          subst he
+          exact lt_of_get_ne_none hroot
+        cases hsr : setHashes E.ops cfg pick (firstLeafNum sz.numSegs) (nd.blockTree shnum sz.numSegs) [(0, r)] [] with
+        | mk o t' =>
+          have := set_keeps_sibClosed hstrict hcl hrange hsr
+          cases o <;> (simp only; rw [blockTree_set_same]; exact this)
+
 end Tahoe.Integrity
